@@ -114,10 +114,100 @@ def check_case(ops: list[list[dict]], tags: dict[int, int], dec: dict, comp: dic
     return out
 
 
+def writer_impl(which: str, prefix: str, ops: list) -> dict:
+    """drive the real writer methods with a sequence of writer operations (correspondence with Dec/Writer.v)"""
+    from core import PERF, DM_CONSTS
+    from explorerscript.source_map import SourceMapBuilder
+    from explorerscript.ssb_converting import ssb_data_types as dt
+
+    if which == "exps":
+        from explorerscript.ssb_converting.ssb_decompiler import ExplorerScriptSsbDecompiler
+        d = ExplorerScriptSsbDecompiler([], [], [], PERF, dt.DungeonModeConstants(*DM_CONSTS))
+        d._output, d.indent, d._line_number, d.smb = prefix, 0, prefix.count("\n") + 1, SourceMapBuilder()
+        line, smb = d.write_line, d.smb
+    else:
+        from explorerscript.ssb_script.ssb_converting.ssb_decompiler import SsbScriptSsbDecompiler
+        d = SsbScriptSsbDecompiler([], [], [])
+        d._output, d.indent, d._line_number, d._source_map_builder = prefix, 0, prefix.count("\n") + 1, SourceMapBuilder()
+        line, smb = d._write_line, d._source_map_builder
+    for o in ops:
+        if o[0] == "line":
+            line()
+        elif o[0] == "stmnt":
+            d.write_stmnt(o[1], o[2])
+        elif o[0] == "indent":
+            d.indent += 1
+        elif o[0] == "dedent":
+            d.indent -= 1
+        elif which == "exps":
+            d.source_map_add_opcode(o[1], o[2])
+        else:   # the SsbScript decompiler records entries inline in _read_op, with exactly this call
+            smb.add_opcode(o[1], d._line_number, d.indent * 4)
+    sm = smb.build()
+    return {"ok": True, "out": d._output, "line": d._line_number,
+            "entries": [[k, v.line, v.column] for k, v in sm._mappings.items()]}
+
+
+PIECES = ["a();", "if ( x ) {", "}", " {", "'''\n    two\n    lines\n'''", "op('x\\ny', {\n    english=\"e\",\n});", "", " ", "\n", "é"]
+
+
+def writer_cases(r: random.Random, n: int) -> list[tuple[str, str, list]]:
+    out = []
+    for _ in range(n):
+        which = r.choice(["exps", "exps", "ssbs"])
+        prefix = r.choice(["", "", "// head\n// er\n", "x"]) if which == "ssbs" else ""
+        ops, ind, off = [], 0, 0
+        for _ in range(r.randint(1, 14)):
+            k = r.random()
+            if k < 0.15:
+                ops.append(["line"])
+            elif k < 0.55:
+                ops.append(["stmnt", r.choice(PIECES), r.random() < 0.7])
+            elif k < 0.65:
+                ops.append(["indent"])
+                ind += 1
+            elif k < 0.75 and ind > 0:
+                ops.append(["dedent"])
+                ind -= 1
+            else:
+                off += r.randint(1, 3)
+                ops.append(["add", off, which == "exps" and r.random() < 0.2])
+        out.append((which, prefix, ops))
+    return out
+
+
+def writer_correspondence(run) -> None:
+    """correspondence of the writer model with the real writer methods of both decompilers"""
+    from core import A, cps, run_driver
+    wc = writer_cases(random.Random(f"C09-writer-{run.seed}"), 400 if run.tier == "quick" else 5000)
+    wimpl = run_impl([("checks.c09:writer_impl", w, pre, ops) for w, pre, ops in wc])
+
+    def wop(o: list) -> list:
+        if o[0] == "stmnt":
+            return [A("stmnt"), cps(o[1]), o[2]]
+        if o[0] == "add":
+            return [A("add"), o[1], o[2]]
+        return [A(o[0])]
+    wmod = run_driver([[A("writer"), cps(pre), [wop(o) for o in ops]] for _, pre, ops in wc])
+    wfirst = None
+    for (w, pre, ops), im, mo in zip(wc, wimpl, wmod):
+        run.case(["writer", w, pre, ops], nontrivial=len(ops) > 2)
+        same = bool(im.get("ok")) and mo.get("r") == "ok" and [ord(c) for c in im["out"]] == mo["out"] \
+            and im["line"] == mo["line"] and sorted(im["entries"]) == sorted(mo["entries"])
+        run.count("K-writer:" + ("ok" if same else "DIFF"))
+        if not same and wfirst is None:
+            wfirst = {"decompiler": w, "prefix": pre, "ops": ops, "impl": im, "model": mo}
+    if wfirst is not None:
+        run.correspondence_broken("K-writer (Dec/Writer.v vs write_stmnt/write_line/source_map_add_opcode)",
+                                  "text, line counter or entries differ", wfirst)
+
+
 def main() -> None:
-    run = Run("C09", "exploration")
+    run = Run("C09", "proof")
     run.forbid()
+    run.require_vo(["Dec/Writer.v", "Dec/WriterProofs.v"])
     run.props("Props/C09.v")
+    writer_correspondence(run)
     q = run.tier == "quick"
     import core
     core.set_case_timeout(6)
